@@ -887,6 +887,13 @@ fn handle_code_action(
 ) -> JsonRpcResponse<Vec<CodeActionResponse>> {
     let uri = &params.text_document.uri;
 
+    // A client may send a range whose end precedes its start. Treat
+    // it as the same selection rather than an impossible one.
+    let mut range = params.range;
+    if (range.end.line, range.end.character) < (range.start.line, range.start.character) {
+        std::mem::swap(&mut range.start, &mut range.end);
+    }
+
     // Convert file:// URI to path
     let path = match uri.to_file_path() {
         Ok(p) => p,
@@ -910,7 +917,7 @@ fn handle_code_action(
         let range = garden_pos_to_lsp_range(&src, &fix.position);
 
         // Only include fixes that overlap with the requested range
-        if !ranges_overlap(&range, &params.range) {
+        if !ranges_overlap(&range, &range) {
             continue;
         }
 
@@ -937,23 +944,23 @@ fn handle_code_action(
         actions.push(CodeActionResponse::CodeAction(action));
     }
 
-    if let Some(action) = build_extract_function_action(&src, &path, uri, &params.range) {
+    if let Some(action) = build_extract_function_action(&src, &path, uri, &range) {
         actions.push(CodeActionResponse::CodeAction(action));
     }
 
-    if let Some(action) = build_extract_variable_action(&src, &path, uri, &params.range) {
+    if let Some(action) = build_extract_variable_action(&src, &path, uri, &range) {
         actions.push(CodeActionResponse::CodeAction(action));
     }
 
-    if let Some(action) = build_destructure_action(&src, &path, uri, &params.range) {
+    if let Some(action) = build_destructure_action(&src, &path, uri, &range) {
         actions.push(CodeActionResponse::CodeAction(action));
     }
 
-    if let Some(action) = build_wrap_in_dbg_action(&src, &path, uri, &params.range) {
+    if let Some(action) = build_wrap_in_dbg_action(&src, &path, uri, &range) {
         actions.push(CodeActionResponse::CodeAction(action));
     }
 
-    if let Some(action) = build_add_type_annotation_action(&src, &path, uri, &params.range) {
+    if let Some(action) = build_add_type_annotation_action(&src, &path, uri, &range) {
         actions.push(CodeActionResponse::CodeAction(action));
     }
 
